@@ -842,6 +842,7 @@ def mm_pairs(rng, tier, budget_pairs):
         for hay in words([0x61, 0x62], hl, minlen=hl - 1):
             yield needle, hay
             n += 1
+    done = False
     for needle in structured_needles(rng, tier):
         L = len(needle)
         sizes = [0, 1, L - 1, L, L + 1, 15, 16, 17, 2 * L + 3, 47, 63, 64, 65, 130, 200] + ([300, 1000] if tier == "thorough" else [])
@@ -849,7 +850,10 @@ def mm_pairs(rng, tier, budget_pairs):
             yield needle, hay
             n += 1
             if budget_pairs and n >= budget_pairs:
-                return
+                done = True
+                break
+        if done:
+            break
     # long needles in haystacks whose tail is shorter than the vector prefilter's minimum
     for L in (33, 40, 64, 100):
         needle = [0x61 + (i * 7) % 26 for i in range(L)]
@@ -859,6 +863,27 @@ def mm_pairs(rng, tier, budget_pairs):
                 yield needle, hay
                 hay2 = [needle[0]] * lead + needle[:-1] + [0x2E] + needle + [0x2E] * tail
                 yield needle, hay2
+    # periodic long needles (Two-Way small-period branch WITH the prefilter): haystacks built from
+    # near-matches of the needle: copies whose first c bytes are damaged or dropped (right part
+    # matches, left part fails), separated by short gaps, optionally followed by a real match
+    wordsets = [[0x61, 0x62, 0x63, 0x64, 0x65, 0x66, 0x67], [0x61] * 11 + [0x5A, 0x51], list(b"id=0042;name=Zoe;ok=1;"),
+                [0x78, 0x79] + [0x61] * 9]
+    for w in wordsets:
+        for reps in (1, 2, 3):
+            for extra in range(1, len(w)):
+                L = reps * len(w) + extra
+                if L <= 32 or L > 80:
+                    continue
+                needle = [w[i % len(w)] for i in range(L)]
+                for c1 in (1, 3):
+                    for c2 in (1, 2):
+                        for gap in (0, 2):
+                            for with_match in (False, True):
+                                h = [0x23] * c1 + needle[c1:] + [0x23] * gap + needle[c2:]
+                                if with_match:
+                                    h += [0x23, 0x23] + needle
+                                yield needle, h
+                yield needle, needle[1:] + needle[2:] + needle[1:] + [0x2E] + needle
     # haystacks that drive the prefilter inert before a later match: dense false candidates
     for L in (34, 40):
         needle = [0x78, 0x79] + [0x61] * (L - 2)
@@ -1053,6 +1078,12 @@ def c13_families(rng, sizes):
             # 5. candidate-free prefix then dense false candidates (keeps the prefilter on)
             yield ("free-prefix-then-dense", join_parts(["7879", rep("61", m - 2)]), m,
                    join_parts([rep("62", n // 2), rep("787962", n // 6)]), n // 2 + (n // 6) * 3)
+        # 6. needle nearly as long as the haystack (n in [m, 2m)): few windows, each as expensive
+        #    as possible; rolling-hash collisions (only the last 32 bytes influence the hash)
+        m = n // 2 + 1
+        yield ("needle-half-of-haystack", join_parts([rep("61", m - 40), "62", rep("61", 39)]), m, rep("61", 2 * m - 1), 2 * m - 1)
+        yield ("needle-half-of-haystack-rev", join_parts([rep("61", m - 1), "62"]), m, rep("61", 2 * m - 1), 2 * m - 1)
+        yield ("needle-almost-haystack", rep("6162", m // 2), (m // 2) * 2, join_parts([rep("6162", m // 2 - 1), "6163", rep("6162", 8)]), (m // 2) * 2 + 16)
         # 4. Fibonacci / Thue-Morse
         f = fib_word(n)
         t = thue_morse(n)
